@@ -147,8 +147,10 @@ async fn run_one(dir: &std::path::Path, line: &str) -> String {
             }
         }
         "nonregular" => {
-            let d = dir.join(format!("d-{}", id));
-            std::fs::create_dir_all(&d).unwrap();
+            // `what` (third field, optional): "dir" (default) a directory, "chardev" the character device /dev/null
+            let what = f.get(2).copied().unwrap_or("dir");
+            let d = if what == "chardev" { std::path::PathBuf::from("/dev/null") } else { dir.join(format!("d-{}", id)) };
+            if what != "chardev" { std::fs::create_dir_all(&d).unwrap(); }
             match Crf::new(std::fs::File::open(&d).unwrap(), http::HeaderMap::new()) {
                 Ok(_) => format!("{}|accepted", id),
                 Err(_) => format!("{}|refused", id),
